@@ -45,6 +45,12 @@ CHECKS = {
     "C10": ("exploration", "runtime monitoring: offline checker over query timestamps on the simulated wire against a scheduler model (start-up schedule, spacing, justified-query and bounded-liveness windows) in virtual time",
             "PTR records of various TTLs learned in any order (incl. shorter-lived after longer-lived), refreshed/re-cased/withdrawn/left to expire; every query of the host is checked for schedule, spacing and justification, and every record that expires must have had its 75 % and rescue queries.",
             "Lateness bound 2 x delay (churn-avoidance + spacing), earliness bound delay; 'eventually' restated as bounded windows in virtual time.", "2/C10"),
+    "C11": ("exploration", "runtime monitoring: offline checker of every reply on the simulated wire against a routing model (unicast vs multicast per record, destination, sending socket, id/question echo, flush bits), with the record's last sighting read from the host's cache at arrival",
+            "Well-spaced injected queries (QU/QM mixes, probes, legacy and mDNS source ports, v4/v6, multicast or unicast delivery, both socket layouts) at arrival times around one quarter of a record's TTL since its last multicast; the exact unicast and multicast answer sets and all format rules are checked on the decoded datagrams.",
+            "Queries are spaced so replies are attributable; dual-stack listen sockets are modelled with IPv4-mapped source addresses.", "2/C11"),
+    "C12": ("exploration", "runtime monitoring: offline obligation/justification checker over send timestamps in virtual time (every owed record served in its window; every multicast answer justified by a window), sightings read from the real cache around each arrival",
+            "Schedules of 1..6 QM queries, probes and truncated trains with gaps on the stated grid under the library's own seeded jitter and 0/1/50 ms loop-back delay; obligations by class (immediate / aggregated 20..500 ms / protected >= sighting+1 s and <= +1.2 s / TC hold 400..500 ms) are checked both ways, plus no duplicate record in one datagram.",
+            "TTL >= 10 s; trains whose next packet lands inside the 400..500 ms timer window are not judged (counted); 1 ms slack.", "2/C12"),
 }
 
 NOT_YET = {}
